@@ -26,7 +26,7 @@ CLAIMED = {
     technique="TLA+ parametric scheme checked for all pairs at reduced width by TLC; TLC validation of recorded full-width vectors"),
  "C13": dict(
     category="model_checking",
-    text="TLC checks the BufferPool specification (buffer_pool_manager.go, one action per critical section, victim choice abstracted) exhaustively for 1 and 2 frames x 3 page ids x 3 versions (thorough: 3 frames depth-bounded) for Coherent, PinSafe, FreshId, ReplacerPinFree, MappedRight, NonResidentOnDisk; the operation labels of every edge of a depth-bounded state graph are performed on a real BufferPoolManager, and random operation sequences run at pool sizes 1,2,3,4,8; TLC judges every recorded step on the recorded projection of the real pool (frames, page table, free list, replacer, reusable ids, disk) plus ghosts (latest version, live ids), and checks that the step is one the mechanism spec allows.",
+    text="TLC checks the BufferPool specification (buffer_pool_manager.go, one action per critical section, victim choice abstracted) exhaustively for 1 and 2 frames x 3 page ids x 3 versions (thorough: 3 frames depth-bounded) for Coherent, PinSafe, FreshId, ReplacerPinFree, MappedRight, NonResidentOnDisk; the operation labels of every edge of a depth-bounded state graph are performed on a real BufferPoolManager, and random operation sequences run at pool sizes 1,2,3,4,8; TLC judges every recorded step on the recorded projection of the real pool (frames, page table, free list, replacer, reusable ids, disk) plus ghosts (latest version, live ids), and checks that the step is one the mechanism spec allows. Concurrent users: goroutines sharing a pool of (users + 1..3) frames allocate, fetch, stamp, re-read while pinned, flush, unpin and deallocate pages of their own; the merged history (one shared atomic counter) is judged by TLC (BufferPoolHistoryTrace: stale / moved / fresh / lost).",
     design_ref="DESIGN.md section 5 C13",
     note="Trusted: TLC, the driver (harness/cmd/vdrive/bpm.go), guarded VerifSnapshot accessor. Users follow the pool's contract. Sequential driver; replacement policy abstracted.",
     technique="TLA+ spec + TLC exhaustive check; graph-guided and random operation sequences on the real pool validated by TLC (state projection + invariants + step conformance)"),
